@@ -123,6 +123,10 @@ LineMeaning(ctx, line) ==
     \* a line the specification gives no meaning to, evaluated through execute: by C04 its result is determined by the
     \* configuration, the text and the date only, i.e. it is what a fresh calculator returns for it
     [] line.form = "opaque"  -> [slot |-> Baseline, env |-> ctx.env]
+    \* a phrase whose leading operand is written as a name (C03: every occurrence of a name denotes the bound value): where
+    \* the name is bound to the value of the operand, the line means what the phrase written with the operand itself means
+    [] line.form = "via"     -> [slot |-> IF Bound(ctx.env, line.name) /\ Lookup(ctx.env, line.name) = LineMeaning(ctx, line.operand).slot
+                                          THEN LineMeaning(ctx, line.phrase).slot ELSE Unspec, env |-> ctx.env]
     [] line.form = "shape"   -> [slot |-> Unspec, env |-> ctx.env]
     [] OTHER                 -> [slot |-> Unspec, env |-> ctx.env]
 
